@@ -21,6 +21,8 @@ type GenOpts struct {
 	MaxElems int
 	// SpecialFloats allows NaN, +-Inf and -0.
 	SpecialFloats bool
+	// Target is the aimed number of populated fields per message in automatic mode. Default 4.
+	Target int
 	// Skip names fields (by full name) that must be left unset.
 	Skip map[protoreflect.FullName]bool
 	// Only, when non-nil, limits top level population to these field names.
@@ -96,8 +98,12 @@ func fillMessage(t *rapid.T, label string, m protoreflect.Message, o GenOpts, de
 		}
 		prob := o.FieldProb
 		if depth > 0 || o.FieldProb < 0 {
-			// aim at ~4 populated fields per message whatever its size
-			prob = 400 / fields.Len()
+			// aim at ~4 (or o.Target) populated fields per message whatever its size
+			target := o.Target
+			if target == 0 {
+				target = 4
+			}
+			prob = 100 * target / fields.Len()
 			if prob < 4 {
 				prob = 4
 			}
